@@ -294,6 +294,7 @@ def check_c16(tier):
     vh = build_harness()
     rnd = random.Random(seed())
     libs = [(rnd.randrange(1, 10**6), n) for n in ((60, 150, 300, 800) if tier == "quick" else (50, 80, 120, 150, 200, 250, 300, 350, 400, 120, 220, 320, 800, 1300))]
+    libs.append((0, 500))      # seed 0 = the flat library (no links: every path has the same rank)
     threads = [1, 2, 3, 8, 16]
     routes = ["import", "insert", "fs"]
     norders = 1 if tier == "quick" else 2
@@ -310,9 +311,11 @@ def check_c16(tier):
         scratch = os.path.join(work, "fs_%d_%d_%s_%d" % (li, t, r, o))
         rc, log_, _ = run([vh, "lib-dump", str(s), str(n), r, str(o), scratch, out], 900, env={"RAYON_NUM_THREADS": str(t)})
         if rc != 0 or not os.path.exists(out):
-            return {"ev": "Observe", "lib": li, "config": {"threads": t, "route": r, "order": o}, "digests": {"crashed": "rc=%s" % rc}}, None
+            return {"ev": "Observe", "lib": li, "config": {"threads": t, "route": r, "order": o}, "digests": {"crashed": "rc=%s" % rc},
+                    "repeat_stable": True}, None
         d = json.load(open(out))
-        return {"ev": "Observe", "lib": li, "config": {"threads": t, "route": r, "order": o}, "digests": d["digests"]}, out
+        return {"ev": "Observe", "lib": li, "config": {"threads": t, "route": r, "order": o}, "digests": d["digests"],
+                "repeat_stable": bool(d["full"].get("search_repeat_stable", True))}, out
 
     events = []
     with concurrent.futures.ThreadPoolExecutor(max_workers=6) as ex:
